@@ -29,10 +29,131 @@ Definition not_implemented (f : list bytes) : bool :=
       else false
   | [] => false
   end.
+
+(* ---------- (1b) CopyObject: which option reaches the destination (composite operation CX) ---------- *)
+(* provenance of a destination field: absent, the source object's value, the value given in the copy
+   options, the options' Expires in a non-canonical (RFC 850) spelling stored verbatim, or that
+   spelling re-printed canonically *)
+Inductive prov := VNone | VSrc | VOpt | VAltRaw | VAltCanon.
+(* fields: 0 content type, 1 Cache-Control, 2 Content-Disposition, 3 Content-Encoding, 4 Content-Language,
+   5 Expires, 6 website redirect location, 7 user metadata *)
+Record cxargs := mkCXA {
+  xa_self : bool;      (* source and destination are the same bucket and key *)
+  xa_smask : N;        (* bit i: the source object has field i *)
+  xa_stags : bool;     (* the source object is tagged *)
+  xa_rm : bool;        (* opts.ReplaceMetadata *)
+  xa_omask : N;        (* bit i: the options carry field i (bit 0: opts.ContentType); bit 8: Expires in RFC 850 spelling *)
+  xa_metanil : bool;   (* opts.Metadata == nil *)
+  xa_rt : bool;        (* opts.ReplaceTags *)
+  xa_otags : bool;     (* opts.Tags non-empty *)
+  xa_ocls : N }.       (* opts.StorageClass (0 = nil) *)
+Definition src_val (a : cxargs) (i : N) : prov := if N.testbit (xa_smask a) i then VSrc else VNone.
+Definition opt_val (a : cxargs) (i : N) : prov :=
+  if N.testbit (xa_omask a) i then (if (i =? 5) && N.testbit (xa_omask a) 8 then VAltRaw else VOpt) else VNone.
+
+(* storage.CopyObjectOptions as the storage sees them *)
+Record copts := mkCO { co_rm : bool; co_ct : prov; co_meta : option (N -> prov); co_rt : bool; co_tags : prov; co_cls : N }.
+Definition meta_field (m : option (N -> prov)) (i : N) : prov := match m with Some f => f i | None => VNone end.
+(* metadatapart/copy.go: REPLACE takes content type and the whole metadata from the options; COPY takes
+   them from the source, except the redirect location, which always comes from the options *)
+Definition storage_copy_field (o : copts) (srcf : N -> prov) (i : N) : prov :=
+  if co_rm o then (if i =? 0 then co_ct o else meta_field (co_meta o) i)
+  else if i =? 6 then meta_field (co_meta o) 6
+  else srcf i.
+Definition storage_copy_tags (o : copts) (srctags : prov) : prov := if co_rt o then co_tags o else srctags.
+
+(* a direct call *)
+Definition direct_opts (a : cxargs) : copts :=
+  mkCO (xa_rm a) (opt_val a 0) (if xa_metanil a then None else Some (opt_val a)) (xa_rt a)
+       (if xa_otags a then VOpt else VNone) (xa_ocls a).
+(* s3client.CopyObject: the request headers (header i present with a value); Expires goes through
+   parseExpires and is re-printed by the SDK; there is no tagging directive and no tagging header *)
+Definition canon (v : prov) : prov := match v with VAltRaw => VAltCanon | _ => v end.
+Record wire := mkW { w_replace : bool; w_hdr : N -> prov; w_cls : N }.
+Definition client_wire (a : cxargs) : wire :=
+  mkW (xa_rm a)
+      (fun i => if xa_rm a then (if i =? 0 then opt_val a 0 else if xa_metanil a then VNone else canon (opt_val a i))
+                else if (i =? 6) && negb (xa_metanil a) then opt_val a 6 else VNone)
+      (xa_ocls a).
+(* server copyObjectHandler: options rebuilt from the headers (parseObjectMetadataHeaders returns nil when
+   no metadata header is present; the content type is read only under REPLACE) *)
+Definition is_vnone (v : prov) : bool := match v with VNone => true | _ => false end.
+Definition meta_ids : list N := [1; 2; 3; 4; 5; 6; 7].
+Definition server_opts (w : wire) : copts :=
+  mkCO (w_replace w) (if w_replace w then w_hdr w 0 else VNone)
+       (if existsb (fun i => negb (is_vnone (w_hdr w i))) meta_ids then Some (w_hdr w) else None)
+       false VNone (w_cls w).
+(* the server refuses a self copy with the COPY directive and without a storage class header *)
+Definition self_copy_rejected (a : cxargs) : bool := xa_self a && negb (xa_rm a) && (xa_ocls a =? 0).
+
+Definition direct_field (a : cxargs) (i : N) : prov := storage_copy_field (direct_opts a) (src_val a) i.
+Definition client_field (a : cxargs) (i : N) : prov := storage_copy_field (server_opts (client_wire a)) (src_val a) i.
+Definition stag (a : cxargs) : prov := if xa_stags a then VSrc else VNone.
+Definition direct_tags (a : cxargs) : prov := storage_copy_tags (direct_opts a) (stag a).
+Definition client_tags (a : cxargs) : prov := storage_copy_tags (server_opts (client_wire a)) (stag a).
+Definition direct_cls (a : cxargs) : N := co_cls (direct_opts a).
+Definition client_cls (a : cxargs) : N := co_cls (server_opts (client_wire a)).
+
+Definition show_prov (v : prov) : byte :=
+  match v with VNone => "-"%byte | VSrc => "S"%byte | VOpt => "O"%byte | VAltRaw => "R"%byte | VAltCanon => "A"%byte end.
+Definition field_ids : list N := [0; 1; 2; 3; 4; 5; 6; 7].
+Definition cx_token (a : cxargs) : bytes :=
+  if self_copy_rejected a then B"I:E"
+  else B"I:" ++ map (fun i => show_prov (client_field a i)) field_ids ++ [show_prov (client_tags a)] ++ show_N (client_cls a).
+(* CX,sb,sk,db,dk,smask,stags,scls,rm,omask,metanil,rt,otags,ocls *)
+Definition cx_args (f : list bytes) : cxargs :=
+  mkCXA ((arg f 1 mod 2 =? arg f 3 mod 2) && (arg f 2 mod 4 =? arg f 4 mod 4))
+        (arg f 5) (arg f 6 =? 1) (arg f 8 =? 1) (arg f 9) (arg f 10 =? 1) (arg f 11 =? 1) (arg f 12 =? 1) (arg f 13).
+
+(* ---------- (1c) CompleteMultipartUpload manifests (composite operation MFX) ---------- *)
+Inductive mres := MROk | MRSeq | MROrder | MRPart.
+(* parts 1..4 uploaded as a bit mask; the storage completes only uploads whose part numbers are 1..n *)
+Definition nparts (up : N) : option N :=
+  if up =? 0 then Some 0 else if up =? 1 then Some 1 else if up =? 3 then Some 2
+  else if up =? 7 then Some 3 else if up =? 15 then Some 4 else None.
+(* validateCompleteMultipartUploadParts: manifest entries (part number, etag selector: 1 = wrong ETag) *)
+Fixpoint validate (n prev : N) (man : list (N * N)) (count : N) : mres :=
+  match man with
+  | [] => if count =? n then MROk else MRPart
+  | (p, e) :: r =>
+      if p <=? prev then MROrder
+      else if negb ((1 <=? p) && (p <=? n)) then MRPart
+      else if e =? 1 then MRPart
+      else validate n p r (count + 1)
+  end.
+Definition storage_complete (up : N) (man : list (N * N)) : mres :=
+  match nparts up with
+  | None => MRSeq
+  | Some n => match man with [] => MROk | _ => validate n 0 man 0 end
+  end.
+(* s3client.CompleteMultipartUpload / mapCompleteMultipartUploadParts and the server's
+   mapCompleteMultipartUploadParts: the manifest is passed on entry by entry in the given order (an empty
+   manifest = no manifest); the completion conditions (If-Match / If-None-Match) are NOT forwarded *)
+Definition client_manifest (man : list (N * N)) : list (N * N) := man.
+Definition server_manifest (man : list (N * N)) : list (N * N) := man.
+Definition through_client_complete (up : N) (man : list (N * N)) : mres :=
+  storage_complete up (server_manifest (client_manifest man)).
+Definition show_mres (r : mres) : bytes :=
+  match r with MROk => B"ok" | MRSeq => B"InternalError" | MROrder => B"InvalidPartOrder" | MRPart => B"InvalidPart" end.
+Definition parse_manifest (t : bytes) : list (N * N) :=
+  if bytes_eqb t B"-" then [] else
+  map (fun e => match split_on ":"%byte e with
+                | [p; x] => (match parse_N p with Some n => n | None => 0 end, match parse_N x with Some n => n | None => 0 end)
+                | _ => (0, 0)
+                end) (split_on "/"%byte t).
+(* MFX,b,k,upmask,manifest,cond,pre: error kind : visible object : upload still open *)
+Definition mfx_token (f : list bytes) : bytes :=
+  let r := through_client_complete (arg f 3) (parse_manifest (nth 4 f [])) in
+  B"I:" ++ show_mres r ++ B":" ++
+  (match r with MROk => B"new:closed" | _ => (if arg f 6 =? 1 then B"old" else B"none") ++ B":open" end).
+
 Definition op_token (o : bytes) : bytes :=
   let f := split_on ","%byte o in
   match f with
-  | op :: _ => if mem_bytes op known_ops then (if not_implemented f then B"NI" else B"I") else B"BadOp"
+  | op :: _ =>
+      if bytes_eqb op B"CX" then cx_token (cx_args f)
+      else if bytes_eqb op B"MFX" then mfx_token f
+      else if mem_bytes op known_ops then (if not_implemented f then B"NI" else B"I") else B"BadOp"
   | [] => B"BadOp"
   end.
 Definition run_line (line : bytes) : bytes :=
